@@ -41,9 +41,7 @@ pub fn eval_number(ctx: &mut Ctx, n: u32) {
     }
     ctx.count(&format!("numbers.form{}", des.len()));
     ctx.nontrivial(hash64(format!("n{}", n).as_bytes()));
-    if n % 99991 == 0 {
-        ctx.sample(|| J::obj().set("eci", J::i(n)).set("designator", J::s(format!("{:?}", des))));
-    }
+    ctx.sample(|| J::obj().set("eci", J::i(n)).set("designator", J::s(format!("{:?}", des))));
 }
 
 /// a designator byte sequence [241, d...] followed by nothing
